@@ -98,6 +98,10 @@ class SyncWorker(base.Worker):
                 for listener in ready:
                     if listener == self.PIPE[0]:
                         continue
+                    # the previous request may have been the last one
+                    # (max_requests) or the worker was asked to stop
+                    if not self.alive:
+                        break
 
                     try:
                         self.accept(listener)
